@@ -28,8 +28,102 @@ CASES = [
 ]
 
 
+# ---- BEGIN BT2: constructs of tools/rs2lean_bfe.py (BFieldElement-typed functions, Tip5 state, &mut parameters, ...)
+# each case: (expected, [(rust name, kw)], source with several fns; the LAST listed fn decides; earlier ones are registered)
+BFE_PRE = """
+fn sq(base: BFieldElement, k: u64) -> BFieldElement { let mut r = base; let mut i = 0; while i < k { r = r * r; i += 1; } r }
+fn g(x: &mut BFieldElement) { *x = *x * *x; }
+fn h(x: &mut BFieldElement) -> u64 { *x = *x * *x; 1 }
+fn pure1(x: BFieldElement) -> BFieldElement { x * x }
+"""
+BFE_CASES = [
+    ("ok", "fn f(a: BFieldElement, b: BFieldElement) -> BFieldElement { let c = a * b; c + a }", "bfe_mul"),
+    ("ok", "fn f(a: BFieldElement) -> BFieldElement { let mut c = a; c *= a; c += BFieldElement::ONE; c }", "bfe_add"),
+    ("ok", "fn f(a: BFieldElement) -> BFieldElement { Self(Self::montyred(a.0 as u128 * a.0 as u128)) }", "montyred"),
+    ("ok", "fn f(&mut self) { for i in 0..4 { Self::g(&mut self.state[i]); } }", "self.set i"),                       # call statement, &mut place
+    ("ok", "fn f(x: &mut BFieldElement) { let mut b = x.0.to_le_bytes(); for i in 0..8 { b[i] = LOOKUP_TABLE[b[i] as usize]; } *x = Self(u64::from_le_bytes(b)); }", "LOOKUP_TABLE.getD"),
+    ("ok", "fn f(&mut self, r: usize) { for i in 0..STATE_SIZE { self.state[i] += ROUND_CONSTANTS[r * STATE_SIZE + i]; } }", "bfe_new (TF.Gen.ROUND_CONSTANTS.getD"),
+    ("ok", "fn f(x: BFieldElement) -> BFieldElement { assert_ne!(x, BFieldElement::ZERO, \"zero\"); sq(x, 3) * x }", ".bind fun"),   # hoisted fuel-indexed call
+    ("ok", "fn f(x: BFieldElement) -> BFieldElement { const fn sq(b: BFieldElement, k: u64) -> BFieldElement { b } sq(x, 3) * x }", ".bind fun"),   # nested item: skipped, registered fn used
+    ("ok", "fn f(&mut self) -> [BFieldElement; 16] { self.g2(); self.state }", "(self, self)"),                              # value and final *self
+    ("ok", "fn f(d: Domain) -> u64 { let mut r = 0; match d { VariableLength => (), FixedLength => { r = 5; } } r }", "if (d == 0)"),
+    ("ok", "fn f(&mut self, inp: [BFieldElement; 10]) { self.state[..10].copy_from_slice(&inp); }", "++ self.drop 10"),
+    ("ok", "fn f(&mut self) -> [BFieldElement; 5] { self.state[..5].try_into().unwrap() }", "(self.take 5"),
+    ("ok", "fn f(d: Domain) -> Self { let mut state = [BFieldElement::ZERO; STATE_SIZE]; match d { VariableLength => (), FixedLength => { let mut i = 10; while i < STATE_SIZE { state[i] = BFieldElement::ONE; i += 1; } } } Self { state } }", "Option (List Nat)"),
+    ("refuse", "fn f(&mut self) -> u64 { let t = self.state[..5].try_into().unwrap(); 1 }", None),   # target length unknown
+    ("refuse", "fn f(a: BFieldElement) -> BFieldElement { a + 1 }", None),                         # integer literal and field element
+    ("refuse", "fn f(a: BFieldElement, b: BFieldElement) -> BFieldElement { a / b }", None),      # Div is not translated
+    ("refuse", "fn f(a: BFieldElement) -> BFieldElement { a << 1 }", None),
+    ("refuse", "fn f(a: BFieldElement) -> BFieldElement { let mut c = a; c -= a; c }", None),      # SubAssign impl not recognised in this context
+    ("refuse", "fn f(a: BFieldElement) -> u64 { let mut c = a; let y = h(&mut c) + 1; y }", None),  # &mut call inside an expression
+    ("refuse", "fn f(a: BFieldElement) -> BFieldElement { pure1(a); a }", None),                   # call statement without &mut: value dropped
+    ("refuse", "fn f(a: u64) -> BFieldElement { Foo::new(a) }", None),                              # `new` of another type
+    ("refuse", "fn f(x: BFieldElement) -> BFieldElement { let y = if x == x { sq(x, 3) } else { x }; y }", None),   # fuel-indexed call under `if`
+    ("refuse", "fn f(x: BFieldElement) -> BFieldElement { fn other(b: BFieldElement) -> BFieldElement { b } other(x) }", None),  # nested fn not translated
+    ("refuse", "fn f(&mut self) -> u64 { let t = self.state[..4]; 1 }", None),                     # slice as a value
+    ("refuse", "fn f(d: Domain) -> u64 { let mut r = 0; match d { FixedLength => { r = 5; } } r }", None),   # non-exhaustive match
+    ("refuse", "fn f(d: Domain) -> u64 { match d { VariableLength => 1, FixedLength => 2 } }", None),       # match with values
+    ("refuse", "fn f(a: XFieldElement) -> XFieldElement { a }", None),
+    ("refuse", "fn f(&mut self) { for i in 0..4 { self.state[i] = self.state[i].inverse_or_zero(); } }", None),   # unknown method
+]
+
+
+def bfe_cases():
+    import rs2lean_bfe as B
+    B.reset_ctx()
+    B.CTX["ops"] = {"+": "bfe_add", "*": "bfe_mul"}
+    B.CTX["assign_ops"] = {"+=", "*="}
+    B.CTX["bfe_consts"] = {"ZERO": 0, "ONE": 1}
+    B.CTX["tables"] = {"LOOKUP_TABLE": ("LOOKUP_TABLE", "u8", None, 256), "ROUND_CONSTANTS": ("ROUND_CONSTANTS", "bfe", "bfe_new", 80)}
+    B.CTX["enums"] = {"Domain": ["VariableLength", "FixedLength"]}
+    B.CTX["owner"] = "BFieldElement"
+    tfns = {"montyred": ("montyred", ["u128"], "u64")}
+    B.CTX["sigs"]["montyred"] = {"outs": [], "has_ret": True, "method": False, "owner": "BFieldElement", "free": False, "generics": 0}
+    pfns = {}
+    consts = {"STATE_SIZE": (16, "usize")}
+    st = ("array", "bfe")
+    pre = [("sq", "bfe", {"free": True}), ("g", "bfe", {}), ("h", "bfe", {}), ("pure1", "bfe", {"free": True})]
+    for rn, self_ty, extra in pre:
+        info = {}
+        text, ptys, rty, partial = L.translate_fn(BFE_PRE, rn, rn, "<test>", consts, tfns, pfns, self_ty=self_ty,
+                                                  translator_cls=B.BfeFnTranslator, info=info)
+        (pfns if partial else tfns)[rn] = (rn, ptys, rty)
+        info["owner"] = None if extra.get("free") else "BFieldElement"
+        info["free"] = bool(extra.get("free"))
+        B.CTX["sigs"][rn] = info
+    # a `&mut self` method of the state type
+    info = {}
+    text, ptys, rty, partial = L.translate_fn("fn g2(&mut self) { self.state[0] = self.state[1]; }", "g2", "g2", "<test>", consts,
+                                              tfns, pfns, self_ty=st, translator_cls=B.BfeFnTranslator, info=info)
+    tfns["g2"] = ("g2", ptys, rty)
+    info["owner"] = "BFieldElement"
+    info["free"] = False
+    B.CTX["sigs"]["g2"] = info
+    out = []
+    for exp, src, needle in BFE_CASES:
+        self_ty = st if ("self" in src.split(")")[0] or "Self {" in src) else "bfe"
+        try:
+            text, _, _, _ = L.translate_fn(src, "f", "f", "<test>", consts, dict(tfns), dict(pfns), self_ty=self_ty,
+                                           translator_cls=B.BfeFnTranslator)
+            got = "ok"
+            if needle is not None and needle not in text:
+                got = "ok-but-missing:" + needle
+        except Unsupported as ex:
+            got, text = "refuse", str(ex)
+        except Exception as ex:
+            got, text = "refuse", f"internal {type(ex).__name__}: {ex}"
+        out.append((exp, got, src, text))
+    return out
+# ---- END BT2
+
+
 def main():
     bad = 0
+    for exp, got, src, text in bfe_cases():
+        flag = "   " if got == exp else "!!!"
+        if got != exp:
+            bad += 1
+        print(f"{flag} expected {exp:6} got {got:6}  {src[:70]}...  {'' if got == 'ok' else '-> ' + text[:80]}")
     for exp, src in CASES:
         try:
             text, _, _, _ = L.translate_fn(src, "f", "f", "<test>", {}, dict(FNS), {})
